@@ -48,8 +48,11 @@ def run(rep, tier):
     mods = struct_check.corpus()
     if tier == "quick":
         mods = [m for m in mods if m[0] in c01.QUICK_MODULES[:6] + ["testdata/alignments.emb"] or not m[0].startswith("testdata/")]
-    results = struct_check.run_corpus(struct_check.check_module_c04,
-                                      {"nmax": 16 if tier == "quick" else 40, "aligns": (4,) if tier == "quick" else (4, 8)}, mods)
+    opts = {"nmax": 16 if tier == "quick" else 40, "aligns": (4,) if tier == "quick" else (4, 8)}
+    if tier == "quick":
+        # aligned-view variants only where nesting/offsets make alignment bookkeeping interesting
+        opts["align_modules"] = ["testdata/alignments.emb", "testdata/bits.emb", "nested_dyn.emb", "params.emb", "byteorder.emb"]
+    results = struct_check.run_corpus(struct_check.check_module_c04, opts, mods)
     out = {"structures": 0, "queries": 0, "replayed": 0, "entry_point_runs": 0, "obligation_sites_by_kind": {},
            "witnesses": 0, "modules": len(results), "not_encoded": [], "outside_claim": []}
     seen = {}
